@@ -52,11 +52,11 @@ var c09Kinds = []string{"swap-cons", "deref", "reset", "swap-conj", "swap-wide",
 	"swap-reads-other", "swap-derefs-self", "swap-updates-other", "swap-resets-other", "gensym", "memo",
 	"deref-fn", "swap-extra-args", "swap-late-throw", "swap-derefs-self-wide", "swap-in-let", "reset-computed", "swap-bounded", "swap-extra-args3",
 	"swap-vec", "swap-list", "swap-conj-wide", "swap-panic", "swap-panic-params", "vswap-assoc", "vswap-assoc-throw", "vswap-assoc-wide", "vderef",
-	"vswap-update-selfread", "vswap-update-selfread-wide", "print"}
+	"vswap-update-selfread", "vswap-update-selfread-wide", "print", "swap-starts-future-that-swaps"}
 var c09Weights = []int{5, 4, 3, 2, 3, 1, 1, 2, 1, 2, 1, 1, 3,
 	2, 2, 1, 1, 1, 1, 3, 2,
 	2, 1, 2, 1, 1, 2, 1, 1, 1,
-	2, 1, 2}
+	2, 1, 2, 2}
 
 func atomName(i int) string { return "a" + strconv.Itoa(i) }
 
@@ -153,8 +153,16 @@ func (op *c09Op) build() {
 		src = "(str " + a + ")"
 	case "gensym":
 		src = "(gensym)"
+	case "swap-starts-future-that-swaps":
+		// the update function starts a future that later updates the same atom from a thread of its own (an
+		// ordinary concurrent operation, not the excluded update function updating its own atom); the
+		// operation waits for the future of the last application and fails if that future's swap! failed
+		id := nid("swap-conj", a, k2)
+		src = "(let [fs (atom nil) r (swap! " + a + " (fn [v] (do (reset! fs (future (do (spin " + strconv.Itoa(op.Spin%9) + ") (h-begin " + id + ") (h-end " + id + " (swap! " + a + " conj " + k2 + "))))) (cons " + k + " v))))] (do (deref (deref fs)) r))"
 	case "memo":
 		src = "(memo-f " + strconv.Itoa(op.Tok%7) + ")"
+	case "memo-big":
+		src = "(memo-f " + k + ")"
 	}
 	if op.Future {
 		src = "@(future " + src + ")"
@@ -363,10 +371,21 @@ func (c09) Run(tp *Tape, opt RunOpt) *RunOut {
 		siegeN = []int{40, 150, 600, 1050, 1300, 2100}[tp.Draw(LaneWork, 6)]
 		siegePoint = []string{"atom.swap.read", "atom.swap.applied"}[tp.Draw(LaneWork, 2)]
 	}
+	// flood (1 run in 150): one thread calls the memoized function with hundreds of distinct arguments while
+	// the others keep asking for a handful of arguments that are (or are about to be) in its table: whatever the
+	// table does when it is large, every call returns f's value for its own argument
+	flood := !siege && tp.Chance(LaneWork, 1, 150)
+	floodN := 0
+	if flood {
+		floodN = []int{100, 300, 520, 700, 1100}[tp.Draw(LaneWork, 5)]
+	}
 	nAtoms := 1 + tp.Draw(LaneWork, 3)
 	nThreads := 2 + tp.Draw(LaneWork, 4)
 	if siege {
 		nAtoms, nThreads = 1, 2
+	}
+	if flood {
+		nAtoms, nThreads = 1, 2+tp.Draw(LaneWork, 2)
 	}
 	cfg := SimCfg{
 		Q:          []int{1, 2, 3, 4, 6, 8, 16}[tp.Draw(LaneWork, 7)],
@@ -378,12 +397,14 @@ func (c09) Run(tp *Tape, opt RunOpt) *RunOut {
 	if siege {
 		cfg.Q, cfg.WindowBias = 1, 0
 		cfg.MaxDecisions = 4*siegeN + 1000
+	} else if flood {
+		cfg.MaxDecisions = 400000
 	} else if tp.Chance(LaneWork, 1, 5) {
 		cfg.StarveID = tp.Draw(LaneWork, nThreads+2)
 		cfg.StarveFrom = tp.Draw(LaneWork, 20)
 		cfg.StarveLen = 5 + tp.Draw(LaneWork, 60)
 	}
-	if !siege && tp.Chance(LaneWork, 1, 4) {
+	if !siege && !flood && tp.Chance(LaneWork, 1, 4) {
 		// PCT policy instead of the random walk: priorities with 0-2 change points
 		cfg.PCTDepth = 1 + tp.Draw(LaneWork, 3)
 		cfg.PCTSpan = []int{30, 120, 600}[tp.Draw(LaneWork, 3)]
@@ -413,6 +434,12 @@ func (c09) Run(tp *Tape, opt RunOpt) *RunOut {
 		if siege {
 			n = []int{1 + tp.Draw(LaneWork, 2), siegeN}[ti]
 		}
+		if flood {
+			n = floodN
+			if ti > 0 {
+				n = floodN/2 + tp.Draw(LaneWork, floodN)
+			}
+		}
 		for k := 0; k < n; k++ {
 			op := &c09Op{ID: "o" + strconv.Itoa(ti) + "." + strconv.Itoa(k)}
 			op.Kind = c09Kinds[tp.Weighted(LaneWork, c09Weights)]
@@ -422,6 +449,12 @@ func (c09) Run(tp *Tape, opt RunOpt) *RunOut {
 					op.Kind = []string{"swap-cons", "swap-wide", "swap-conj", "swap-extra-args", "swap-derefs-self", "swap-in-let"}[tp.Draw(LaneWork, 6)]
 				} else {
 					op.Kind = "reset"
+				}
+			}
+			if flood {
+				op.Kind = "memo"
+				if ti == 0 {
+					op.Kind = "memo-big"
 				}
 			}
 			op.Atom = tp.Draw(LaneWork, nAtoms)
@@ -438,10 +471,10 @@ func (c09) Run(tp *Tape, opt RunOpt) *RunOut {
 			op.Spin = 3 + tp.Draw(LaneWork, 40)
 			op.Limit = tp.Draw(LaneWork, 5)
 			op.Future = tp.Chance(LaneWork, 1, 6)
-			if siege {
+			if siege || flood {
 				op.Future = false
 			}
-			if !siege && !op.Future && tp.Chance(LaneFault, 1, 8) {
+			if !siege && !flood && !op.Future && tp.Chance(LaneFault, 1, 8) {
 				switch op.Kind {
 				case "swap-cons", "swap-conj", "swap-wide", "swap-conj-wide", "reset", "deref", "vswap-assoc", "vswap-assoc-wide", "swap-in-let", "swap-extra-args":
 					// the fault: this operation's context is cancelled somewhere inside it
@@ -451,7 +484,11 @@ func (c09) Run(tp *Tape, opt RunOpt) *RunOut {
 			op.build()
 			ops[op.ID] = op
 			th.ops = append(th.ops, op)
-			if siege && ti == 1 && k >= 3 {
+			if flood && k >= 3 {
+				if k == 3 {
+					rendering = append(rendering, "thread "+strconv.Itoa(ti)+": ... "+strconv.Itoa(n)+" such calls")
+				}
+			} else if siege && ti == 1 && k >= 3 {
 				if k == 3 {
 					rendering = append(rendering, "thread 1: ... "+strconv.Itoa(siegeN)+" such operations, one inside every "+siegePoint+" window of thread 0")
 				}
@@ -491,6 +528,12 @@ func (c09) Run(tp *Tape, opt RunOpt) *RunOut {
 	s.Run()
 	simhook.Install(nil)
 	out.collect(s)
+	if flood {
+		out.Stats["programs:memoize-flood"]++
+		if floodN > 512 {
+			out.Stats["reach:memoize-table-above-512-entries"]++
+		}
+	}
 	if siege {
 		out.Stats["siege:rounds-lost-by-one-swap"] += s.SiegeRounds
 		if s.SiegeRounds >= 1000 {
@@ -551,7 +594,7 @@ func (c09) Run(tp *Tape, opt RunOpt) *RunOut {
 			case "vderef":
 				r.atom = vaBase + op.Atom
 				r.in = atomIn{Kind: "deref"}
-			case "gensym", "memo":
+			case "gensym", "memo", "memo-big":
 				r.atom = -1
 			default:
 				r.in = atomIn{Kind: "swap-cons", Tok: strconv.Itoa(op.Tok)}
@@ -577,6 +620,11 @@ func (c09) Run(tp *Tape, opt RunOpt) *RunOut {
 				gensyms = append(gensyms, ev.B)
 			case "memo":
 				want := strconv.Itoa((op.Tok % 7) * 2)
+				if ev.B != want {
+					memoBad = op.Src + " returned " + ev.B + ", want " + want
+				}
+			case "memo-big":
+				want := strconv.Itoa(op.Tok * 2)
 				if ev.B != want {
 					memoBad = op.Src + " returned " + ev.B + ", want " + want
 				}
@@ -854,6 +902,10 @@ func (c09) Run(tp *Tape, opt RunOpt) *RunOut {
 			}
 		}
 		for _, ev := range s.Events {
+			if flood {
+				// a table this large may legitimately be pruned: only the values are judged
+				break
+			}
 			if ev.Kind != "trace" || !strings.HasPrefix(ev.A, "(:memo ") {
 				continue
 			}
